@@ -305,11 +305,21 @@ fn sorted_drops() -> Vec<(u64, u64)> {
     d
 }
 
+/// the two worlds of a script: every other script gets them from `Default` (what `mem::take` leaves behind) instead of `new`
+fn fresh_worlds() -> Vec<Option<World>> {
+    static N: std::sync::atomic::AtomicUsize = std::sync::atomic::AtomicUsize::new(0);
+    if N.fetch_add(1, std::sync::atomic::Ordering::Relaxed) % 2 == 0 {
+        vec![Some(World::new()), Some(World::new())]
+    } else {
+        vec![Some(World::default()), Some(World::default())]
+    }
+}
+
 impl Engine {
     pub fn new() -> Self {
         Engine {
             sizes: universe().iter().map(|x| x.1).collect(),
-            worlds: vec![Some(World::new()), Some(World::new())],
+            worlds: fresh_worlds(),
             poisoned: vec![false, false],
             handles: Vec::new(),
             shadow: vec![Shadow::default(), Shadow::default()],
